@@ -6,6 +6,7 @@ import Driver.C01
 import Driver.Verbs
 import Driver.C03
 import Driver.C09
+import Driver.Re
 namespace Driver
 
 def dispatch (op : String) : Option Handler :=
@@ -23,11 +24,13 @@ def dispatch (op : String) : Option Handler :=
   | "f64" => some C07.f64
   | "f2i" => some C07.f2i
   | "verbs" => some Verbs.verbs
+  | "verbsx" => some Verbs.verbs
   | "readops" => some C03.readops
   | "sortv" => some C09.sortv
   | "cmp" => some C09.cmp
   | "cmp3" => some C09.cmp3
   | "dslsort" => some C09.dslsort
+  | "re" => some Re.re
   | "bystand" => some C03.bystand
   | "pair" => some Verbs.pair
   | "rt" => some C01.rt
